@@ -159,10 +159,18 @@ def _mirror_job(kw):
     kw = dict(kw)
     kind = kw.pop("kind")
     fl = kw.pop("fl")
+    pair = kw.pop("pair", "mirror")
     a_, b_, q2 = Fraction(1, 5), Fraction(1, 2), 20
+    if pair == "mirror":
+        first, second = {"x": a_, "Q2": q2, "y": b_}, {"x": b_, "Q2": q2, "y": a_}
+    else:
+        # two points with the SAME inelasticity (another x, another Q2): whatever is remembered per y must not carry the first point's
+        # target-mass shift into the second
+        first, second = {"x": a_, "Q2": q2, "y": b_}, {"x": b_, "Q2": 30, "y": b_}
+    b_, q2, a_ = second["x"], second["Q2"], second["y"]  # from here on: the kinematics of the SECOND point (x, Q2, y)
     base = ("F2", "FL", "F3")
     try:
-        xs_op = O.fold_op(proj, R.Cell(obs=f"{kind}_{fl}", kin_y=True, points=[{"x": a_, "Q2": q2, "y": b_}, {"x": b_, "Q2": q2, "y": a_}], **kw))
+        xs_op = O.fold_op(proj, R.Cell(obs=f"{kind}_{fl}", kin_y=True, points=[first, second], **kw))
         comps = [O.fold_op(proj, R.Cell(obs=f"{b}_{fl}", kin_y=False, points=[{"x": b_, "Q2": q2}], **kw)) for b in base]
     except O.FoldFailure as f:
         return ("fold", f.outcome.status, f"{f.outcome.etype} {f.outcome.msg}"[:160], f.outcome.site, f.outcome.construct)
@@ -192,13 +200,14 @@ def _mirror_job(kw):
 
 
 def check_mirror(rep, proj, tier):
-    jobs = [dict(kind=kind, fl="total", process=proc, projectile=projectile, fns="ZM-VFNS", nfff=4, nf=4, pto=1, tmc=tmc, ren_sv=False, fact_sv=False)
-            for kind, (proc, projectile), tmc in itertools.product(["XSHERANC", "XSCHORUSCC", "XSNUTEVCC", "FW"], [("NC", "electron"), ("CC", "neutrino")], [0, 1])
+    jobs = [dict(kind=kind, fl="total", process=proc, projectile=projectile, fns="ZM-VFNS", nfff=4, nf=4, pto=1, tmc=tmc, ren_sv=False, fact_sv=False, pair=pair)
+            for kind, (proc, projectile), tmc, pair in itertools.product(["XSHERANC", "XSCHORUSCC", "XSNUTEVCC", "FW"], [("NC", "electron"), ("CC", "neutrino")], [0, 1],
+                                                                         ["mirror", "same-y"])
             if (kind == "XSHERANC") == (proc == "NC")]
     outs = sweep.run_cells(_mirror_job, jobs)
     n_entries = 0
     for kw, o in zip(jobs, outs):
-        label = f"{kw['kind']}_total|{kw['process']}|{kw['projectile']}|TMC={kw['tmc']}|points (1/5, 20, 1/2) then (1/2, 20, 1/5)"
+        label = f"{kw['kind']}_total|{kw['process']}|{kw['projectile']}|TMC={kw['tmc']}|points (x, Q2, y) = " + ("(1/5, 20, 1/2) then (1/2, 20, 1/5)" if kw["pair"] == "mirror" else "(1/5, 20, 1/2) then (1/2, 30, 1/2)")
         if o[0] == "fold":
             _, status, msg, site, construct = o
             if status == "rejected":
@@ -210,11 +219,11 @@ def check_mirror(rep, proj, tier):
         n_entries += n
         if nbad:
             key, p, j, txt = bad[0]
-            rep.bad("C11.mirror", "src/yadism/esf/exs.py", label, f"{nbad} of {n} entries of the second point differ from coeffs . (F2, FL, xF3) at its own x = 1/2 "
-                    f"(the structure functions of the mirrored first point are used), e.g. order {key} pid {p} node {j}: {txt[:300]}", key=label)
+            rep.bad("C11.mirror", "src/yadism/esf/exs.py", label, f"{nbad} of {n} entries of the second point differ from coeffs . (F2, FL, xF3) at its own kinematics "
+                    f"(something remembered for the first point is used), e.g. order {key} pid {p} node {j}: {txt[:300]}", key=label)
         else:
             rep.ok("C11.mirror", "", label, f"{n} entries of the second point == the combination of the structure functions at its own kinematics")
-    rep.floor("mirrored-pair entries compared", n_entries, 300)
+    rep.floor("mirrored-pair entries compared", n_entries, 600)
 
 
 def check_combo(rep, proj, tier):
